@@ -547,6 +547,7 @@ impl<'tcx> M<'tcx> {
         if self.depth > 200 {
             return unsup("call depth");
         }
+        let my_depth = self.depth;
         let mut bb = START_BLOCK;
         self.loc_stack.truncate(self.depth - 1);
         self.loc_stack.push((fr.inst.def_id(), 0));
@@ -661,14 +662,41 @@ impl<'tcx> M<'tcx> {
                         o => return unsup(format!("assert on {:?}", o)),
                     }
                 }
-                TerminatorKind::Drop { place, target, .. } => {
+                TerminatorKind::Drop { place, target, unwind, .. } => {
                     let (ptr, t) = self.place(&fr, place)?;
-                    self.drop_at(&ptr, t)?;
+                    match self.drop_at(&ptr, t) {
+                        Err(Stop::Unwind) => {
+                            self.depth = my_depth;
+                            match unwind {
+                                UnwindAction::Cleanup(c) => { bb = *c; continue; }
+                                UnwindAction::Continue => { self.depth -= 1; return Err(Stop::Unwind); }
+                                _ => return Err(Stop::Panic("abort: panic in a destructor during unwinding".into())),
+                            }
+                        }
+                        r => r?,
+                    }
                     bb = *target;
                 }
-                TerminatorKind::Call { func, args, destination, target, .. } => {
+                TerminatorKind::UnwindResume => {
+                    self.depth = my_depth - 1;
+                    return Err(Stop::Unwind);
+                }
+                TerminatorKind::Call { func, args, destination, target, unwind, .. } => {
                     let rt = self.mono(&fr, destination.ty(body, tcx).ty);
-                    let v = self.do_call(&fr, func, args, rt)?;
+                    let v = match self.do_call(&fr, func, args, rt) {
+                        Err(Stop::Unwind) => {
+                            // the callee panicked: follow this frame's cleanup edge (drops of the live locals), then resume unwinding in the caller
+                            self.depth = my_depth;
+                            self.loc_stack.truncate(my_depth);
+                            match unwind {
+                                UnwindAction::Cleanup(c) => { bb = *c; continue; }
+                                UnwindAction::Continue => { self.depth -= 1; return Err(Stop::Unwind); }
+                                UnwindAction::Unreachable => return unsup("unwinding through a call marked nounwind"),
+                                UnwindAction::Terminate(_) => return Err(Stop::Panic("abort: unwinding out of a frame that must not unwind".into())),
+                            }
+                        }
+                        r => r?,
+                    };
                     let Some(t) = target else { return Err(Stop::Panic("diverging call returned".into())) };
                     self.write_place(&fr, destination, v)?;
                     bb = *t;
